@@ -291,7 +291,7 @@ def r_compute_exact(geo, where, G, nrm, rng, bare=False):
     return (x[_terms_key(where, bare)] if ra else x), "return_all=%s" % ra
 
 
-def r_cluster(geo, where, G, nrm, rng, bare=False):
+def r_cluster(geo, where, G, nrm, rng, bare=False, maxbond=False):
     tn = geo.tn
     w = where[0] if bare else where
     kw = {"max_distance": _spanning_distance(geo) + rng.choice([0, 3])}
@@ -306,8 +306,8 @@ def r_cluster(geo, where, G, nrm, rng, bare=False):
             kw["gauges"] = gauges
             if rng.random() < 0.5:
                 kw["smudge"] = 0.0
-    if rng.random() < 0.3:
-        kw["max_bond"] = 256
+    if maxbond:
+        kw["max_bond"] = rng.choice([256, 1024])
     kw["optimize"] = rng.choice(["auto", "greedy"])
     desc = ",".join("%s=%s" % (k, "<gauges>" if k == "gauges" else v) for k, v in sorted(kw.items()))
     if rng.random() < 0.5:
@@ -317,25 +317,36 @@ def r_cluster(geo, where, G, nrm, rng, bare=False):
     return (x[_terms_key(where, bare)] if ra else x), "compute,return_all=%s,%s" % (ra, desc)
 
 
+def r_cluster_maxbond(geo, where, G, nrm, rng, bare=False):
+    return r_cluster(geo, where, G, nrm, rng, bare=bare, maxbond=True)
+
+
 def r_cluster_loopunion(geo, where, G, nrm, rng, bare=False):
     w = where[0] if bare else where
     md = 2 * len(geo.sites) + 2
     return geo.tn.local_expectation_cluster(G, w, normalized=nrm, max_distance=md, mode="loopunion"), "mode=loopunion,max_distance=%d" % md
 
 
-def r_compressed(geo, where, G, nrm, rng, bare=False):
-    w = where[0] if bare else where
+def _compressed_opts(rng):
     kw = {"max_bond": rng.choice([256, 1024]), "optimize": rng.choice(["greedy", "auto-hq"]), "flatten": rng.choice([True, True, False, "all"])}
     if rng.random() < 0.3:
         kw["symmetrized"] = rng.choice([True, False])
     if rng.random() < 0.5:
         kw["cutoff"] = 0.0
-    desc = ",".join("%s=%s" % kv for kv in sorted(kw.items()))
-    if rng.random() < 0.5:
-        return geo.tn.local_expectation(G, w, normalized=nrm, **kw), desc
+    return kw, ",".join("%s=%s" % kv for kv in sorted(kw.items()))
+
+
+def r_compressed(geo, where, G, nrm, rng, bare=False):
+    w = where[0] if bare else where
+    kw, desc = _compressed_opts(rng)
+    return geo.tn.local_expectation(G, w, normalized=nrm, **kw), desc
+
+
+def r_compute_compressed(geo, where, G, nrm, rng, bare=False):
+    kw, desc = _compressed_opts(rng)
     ra = rng.random() < 0.5
     x = geo.tn.compute_local_expectation({_terms_key(where, bare): G}, normalized=nrm, return_all=ra, **kw)
-    return (x[_terms_key(where, bare)] if ra else x), "compute,return_all=%s,%s" % (ra, desc)
+    return (x[_terms_key(where, bare)] if ra else x), "return_all=%s,%s" % (ra, desc)
 
 
 def r_gloop(geo, where, G, nrm, rng, bare=False):
@@ -555,8 +566,10 @@ EXPECT_ROUTES = {
     "local_expectation_exact_return": r_exact_return,
     "compute_local_expectation_exact": r_compute_exact,
     "local_expectation_cluster": r_cluster,
+    "local_expectation_cluster_maxbond": r_cluster_maxbond,
     "local_expectation_cluster_loopunion": r_cluster_loopunion,
     "local_expectation_compressed": r_compressed,
+    "compute_local_expectation_compressed": r_compute_compressed,
     "local_expectation_gloop_expand": r_gloop,
     "local_expectation_gloop_expand_reduced": r_gloop_tree_reduce,
     "local_expectation_gloop_expand_auto": r_gloop_auto,
@@ -576,26 +589,35 @@ def _ds(geo, where):
     return [geo.dims[geo.pos[s]] for s in where]
 
 
-def m_partial_trace_exact(geo, where, nrm, rng, bare=False):
+def m_partial_trace_exact(geo, where, nrm, rng, bare=False, tensor_normalized=False):
     w = where[0] if bare else where
-    get = rng.choice(["matrix", "array", "tensor", "matrix"])
     n = int(np.prod(_ds(geo, where)))
     mode = rng.choice(["flag", "flag", "return"])
+    get = rng.choice(["matrix", "array", "tensor", "matrix"])
+    if tensor_normalized:
+        get, mode = "tensor", "flag"
+    elif get == "tensor" and mode == "flag" and nrm:
+        get = "array"
     extra = {}
     if mode == "return":
-        rho, nf = geo.tn.partial_trace_exact(w, normalized="return", get=get)
+        rho, nf = geo.tn.partial_trace_exact(w, normalized="return", get=get, optimize=rng.choice(["auto-hq", "greedy"]))
         extra["nfactor"] = nf
     else:
         rho = geo.tn.partial_trace_exact(w, normalized=nrm, get=get)
     if get == "tensor":
         k = [geo.tn.site_ind(s) for s in where]
-        b = [i for i in rho.inds if i not in k]
         b = ["_bra{}".format(s) for s in where]
         rho = np_dense([(tuple(rho.inds), np.asarray(rho.data))], k + b)
     rho = np.asarray(rho).reshape(n, n)
     if mode == "return" and nrm:
         rho = rho / nf
     return rho, "get=%s,normalized=%s" % (get, "return" if mode == "return" else nrm), extra
+
+
+def m_partial_trace_exact_tensor_normalized(geo, where, nrm, rng, bare=False):
+    if not nrm:
+        raise Skip("covered by partial_trace_exact")
+    return m_partial_trace_exact(geo, where, nrm, rng, bare=bare, tensor_normalized=True)
 
 
 def m_partial_trace_cluster(geo, where, nrm, rng, bare=False):
@@ -615,22 +637,20 @@ def m_partial_trace_cluster(geo, where, nrm, rng, bare=False):
     return np.asarray(rho), ",".join("%s=%s" % (k, "<gauges>" if k == "gauges" else v) for k, v in sorted(kw.items())), {}
 
 
-def m_partial_trace_compressed(geo, where, nrm, rng, bare=False):
-    import quimb.tensor as qtn
-
+def m_partial_trace_compressed(geo, where, nrm, rng, bare=False, reduce=False):
     w = where[0] if bare else where
     kw = {"max_bond": 256, "optimize": rng.choice(["greedy", "auto-hq"]), "flatten": rng.choice([True, False, "all"]),
           "method": rng.choice(["contract_compressed", "contract_compressed", "contract_around"])}
-    if rng.random() < 0.3:
+    if reduce:
         kw["reduce"] = True
     if rng.random() < 0.3:
         kw["symmetrized"] = rng.choice([True, False])
-    fn = geo.tn.partial_trace
-    if geo.cls == "peps3d":
-        # the generic compressed-contraction route is shadowed by the 3D one: call it through the base class
-        fn = lambda *a, **k: qtn.TensorNetworkGenVector.partial_trace(geo.tn, *a, **k)  # noqa
-    rho = fn(w, normalized=nrm, **kw)
+    rho = geo.tn.partial_trace(w, normalized=nrm, **kw)
     return np.asarray(rho), ",".join("%s=%s" % kv for kv in sorted(kw.items())), {}
+
+
+def m_partial_trace_compressed_reduce(geo, where, nrm, rng, bare=False):
+    return m_partial_trace_compressed(geo, where, nrm, rng, bare=bare, reduce=True)
 
 
 def m_make_rdm(geo, where, nrm, rng, bare=False):
@@ -681,8 +701,10 @@ def m_partial_trace_3d(geo, where, nrm, rng, bare=False):
 
 RDM_ROUTES = {
     "partial_trace_exact": m_partial_trace_exact,
+    "partial_trace_exact_tensor_normalized": m_partial_trace_exact_tensor_normalized,
     "partial_trace_cluster": m_partial_trace_cluster,
     "partial_trace_compressed": m_partial_trace_compressed,
+    "partial_trace_compressed_reduce": m_partial_trace_compressed_reduce,
     "make_reduced_density_matrix": m_make_rdm,
     "partial_trace_to_dense_canonical": m_to_dense_canonical,
     "partial_trace_to_mpo": m_to_mpo,
@@ -692,12 +714,23 @@ RDM_ROUTES = {
 
 # ---- reduced states in operator form: trace and partial transpose
 def operator_form(geo, where, rng):
-    """the (unnormalised) reduced state on `where` as a TensorNetworkGenOperator, upper = ket"""
+    """the (unnormalised) reduced state on `where` as a TensorNetworkGenOperator, upper = ket.
+    (Lattice classes label sites by coordinate tuples with ids like "k{},{}": the generic operator class
+    formats a site as ONE argument, so those get generic per-site tags and upper indices first.)"""
     import quimb.tensor as qtn
 
-    tn = geo.tn.make_reduced_density_matrix(where, bra_ind_id="b{}")
-    return qtn.TensorNetworkGenOperator.from_TN(tn, sites=tuple(where), site_tag_id=geo.tn.site_tag_id,
-                                                upper_ind_id=geo.tn.site_ind_id, lower_ind_id="b{}")
+    src = geo.tn
+    w = where if isinstance(where, tuple) and not src.has_site(where) else (where,)
+    tn = src.make_reduced_density_matrix(where, bra_ind_id="b{}")
+    if geo.cls in ("peps", "peps3d"):
+        tn = tn.copy()
+        for s in geo.sites:
+            for t in tn.select_tensors(src.site_tag(s)):
+                t.add_tag("S{}".format(s))
+        tn.reindex_({src.site_ind(s): "u{}".format(s) for s in w})
+        return qtn.TensorNetworkGenOperator.from_TN(tn, sites=tuple(w), site_tag_id="S{}", upper_ind_id="u{}", lower_ind_id="b{}")
+    return qtn.TensorNetworkGenOperator.from_TN(tn, sites=tuple(w), site_tag_id=src.site_tag_id,
+                                                upper_ind_id=src.site_ind_id, lower_ind_id="b{}")
 
 
 def op_dense(op, where):
